@@ -215,7 +215,7 @@ def model_text():
 
 
 def build():
-    u = Unit('errmap', ['C09', 'C14', 'C04', 'C02'])
+    u = Unit('errmap', ['C09', 'C14', 'C04', 'C02', 'C08'])
     common.http_base(u)
     common.metadata_core(u, props_sanitize=('C08',))
     common.status_decls(u)
